@@ -1244,7 +1244,7 @@ impl Block {
         // we need to calculate the cumulative figures AFTER the
         // original figures.
         let mut cumulative_fees = 0;
-        let mut total_work = 0;
+        let mut total_work: Currency = 0;
 
         let mut has_golden_ticket = false;
         let mut has_fee_transaction = false;
@@ -1267,7 +1267,8 @@ impl Block {
 
             cumulative_fees = transaction.generate_cumulative_fees(cumulative_fees);
 
-            total_work += transaction.total_work_for_me;
+            // (saturating: these sums run over a block as it came off the wire, before validation)
+            total_work = total_work.saturating_add(transaction.total_work_for_me);
 
             // update slips_spent_this_block so that we have a record of
             // how many times input slips are spent in this block. we will
@@ -1439,7 +1440,7 @@ impl Block {
                 && !transaction.is_atr_transaction()
             {
                 cv.total_bytes_new += transaction.get_serialized_size() as u64;
-                cv.total_fees_new += transaction.total_fees;
+                cv.total_fees_new = cv.total_fees_new.saturating_add(transaction.total_fees);
             }
 
             if transaction.is_golden_ticket() {
